@@ -1243,6 +1243,33 @@ Section Proofs.
   Theorem resume_total s : Inv s -> qs s <> [] -> wp False (resume_post s) (resume s).
   Proof. intros. apply resume_spec; assumption. Qed.
 
+  (* Readable corollaries of [scan1_spec]. *)
+  Theorem scan_total s : Inv s -> exists r s', scan1 s = Ok (r, s') /\ Inv s'.
+  Proof.
+    intros I. pose proof (scan1_spec s I) as W.
+    destruct (scan1 s) as [[r s']| |]; cbn [wp] in W; [| destruct W | destruct W].
+    exists r, s'. split; [reflexivity | exact (proj1 W)].
+  Qed.
+
+  (* scan_progress: a Scan call that does not return EOF strictly decreases
+     2*(len - offset) + insertEOL: it consumes at least one byte, or it emits the
+     pending inserted comma; a token that is not an inserted comma is not empty. *)
+  Theorem scan_progress s r s' : Inv s -> scan1 s = Ok (r, s') -> r_tok r <> EOF ->
+    mu s' < mu s /\ (r_elided r = false -> r_start r < off s').
+  Proof.
+    intros I H Hne. pose proof (scan1_spec s I) as W. rewrite H in W.
+    destruct W as (_ & _ & _ & _ & _ & P5 & P6 & _). prj. auto.
+  Qed.
+
+  (* position monotonicity of one call *)
+  Theorem scan_offsets s r s' : Inv s -> scan1 s = Ok (r, s') ->
+    0 <= off s <= r_start r /\ r_start r <= off s' <= len /\ errs s <= errs s'.
+  Proof.
+    intros I H. pose proof (scan1_spec s I) as W. rewrite H in W.
+    destruct W as (I' & P1 & P2 & P3 & _). prj.
+    pose proof (inv_off _ I). pose proof (inv_off_rd _ I'). pose proof (inv_rd _ I'). lia.
+  Qed.
+
   (* ---- tokenisation: Init, then Scan until EOF ---- *)
   Notation tokens_from := (tokens_from src isLetterU isDigitU scan_comments dont_insert).
   Notation tokenize := (tokenize src isLetterU isDigitU scan_comments dont_insert).
@@ -1278,7 +1305,7 @@ Section Proofs.
     (forall r, In r l -> r_elided r = true -> r_tok r = COMMA).
 
   Lemma tok_beq_EOF t : tok_beq t EOF = true <-> t = EOF.
-  Proof. split; [apply internal_tok_dec_bl | apply internal_tok_dec_lb]. Qed.
+  Proof. split; [destruct t; (reflexivity || discriminate) | intros ->; reflexivity]. Qed.
 
   Lemma tokens_from_spec n s : Inv s ->
     wp (Z.of_nat n <= mu s) (toks_post s) (tokens_from n s).
